@@ -74,7 +74,7 @@ OnU == /\ oc.pc \in USites /\ UNCHANGED <<vars, ores, ounrep, faults>>
              /\ (fa > 0) => (ufaults < MaxUFaults /\ b.fired)
              /\ ufaults' = ufaults + (IF fa > 0 THEN 1 ELSE 0)
              /\ oc' = b.c /\ ust' = b.u
-Return == oc.pc = "ret" /\ OFinish /\ UNCHANGED <<faults, ufaults>>
+Return == oc.pc = "ret" /\ OFinish(oc.ret) /\ UNCHANGED <<faults, ufaults>>
 MCNext == Idle \/ OnR \/ OnU \/ Return
 MCSpec == MCInit /\ [][MCNext]_mcvars
 
